@@ -1,9 +1,151 @@
-(* C16 — No input makes Task crash (PARTIAL: see lib/props_decode.py).  Statements only. *)
+(* C16 — No input makes Task crash.  PARTIAL: the theorems cover go-task's own
+   decode / compile / snippet / include-location logic over abstract node trees
+   (model I, Decode/Model.v); yaml.v3's parser, text/template, regexp, chroma and
+   giturls are oracles here and are covered by the differential fuzz only.
+   Statements only; proofs are in Decode/Proofs*.v. *)
 From Coq Require Import List String NArith ZArith Bool.
 Import ListNotations.
-From TV Require Import Decode.Model Extracted.Facts Run.DecodeCases.
+From TV Require Import Decode.Model Decode.Proofs Decode.ProofsCodes Decode.ProofsRun Decode.ProofsMain
+                       Extracted.Facts Run.DecodeCases.
+Local Open Scope string_scope.
 
-(* every guard fact extracted from the source has a recognised shape *)
+(* ---- tie to the source ---- *)
+(* every guard fact extracted from /repo has a shape the extractor recognised;
+   [current] (Run/DecodeCases.v) is the variant these facts describe *)
 Theorem C16_facts_recognised : facts_recognised = true.
 Proof. reflexivity. Qed.
 Print Assumptions C16_facts_recognised.
+
+(* the exit codes the model emits are the constants of errors/errors.go *)
+Theorem C16_code_table :
+  code_named "CodeUnknown" = Some code_unknown /\ code_named "CodeTaskfileNotFound" = Some code_not_found /\
+  code_named "CodeTaskfileDecode" = Some code_decode /\ code_named "CodeTaskfileVersionCheckError" = Some code_version /\
+  code_named "CodeTaskfileInvalid" = Some code_invalid /\ code_named "CodeTaskfileCycle" = Some code_cycle /\
+  code_named "CodeTaskNotFound" = Some code_task_not_found /\ forallb documented model_codes = true.
+Proof. repeat split; reflexivity. Qed.
+Print Assumptions C16_code_table.
+
+(* ---- decoding: for every node tree and every verdict of the oracles ---- *)
+Theorem C16_no_panic_decode :
+  forall (v : variant) (o : oracles) (n : ynode), g_var_len v = true -> forall s, decode_taskfile v o n <> Panic s.
+Proof. exact no_panic_decode. Qed.
+Print Assumptions C16_no_panic_decode.
+
+(* the only panic of the decoders, in any variant: the empty mapping as a variable *)
+Theorem C16_decode_panic_characterised :
+  forall v o n s, decode_taskfile v o n = Panic s -> s = SVarEmptyMap /\ g_var_len v = false /\ hem n = true.
+Proof. exact decode_panic_inv. Qed.
+Print Assumptions C16_decode_panic_characterised.
+
+Theorem C16_no_panic_decode_refuted :
+  forall v o, g_var_len v = false -> exists n, decode_taskfile v o n = Panic SVarEmptyMap.
+Proof. exact (fun v o H => ex_intro _ wit_var (refuted_var_empty_map v o H)). Qed.
+Print Assumptions C16_no_panic_decode_refuted.
+
+Theorem C16_no_panic_decode_partial :
+  forall v o n, hem n = false -> forall s, decode_taskfile v o n <> Panic s.
+Proof. exact no_panic_decode_partial. Qed.
+Print Assumptions C16_no_panic_decode_partial.
+
+(* ---- compiling, listing, looking up names, dry-running: for every table of tasks ---- *)
+Theorem C16_no_panic_compile :
+  forall v o goos goarch gvt (tbl : list task) (requested : list string) certain,
+    all_guards v o -> table_events v o goos goarch gvt tbl requested certain = [].
+Proof. exact no_panic_compile. Qed.
+Print Assumptions C16_no_panic_compile.
+
+(* in any variant a panic needs a missing guard *)
+Theorem C16_panic_needs_open_site :
+  forall v o e s, In s (pr_must (predict v o e) ++ pr_may (predict v o e)) -> site_open v o s.
+Proof. exact predict_sites_open. Qed.
+Print Assumptions C16_panic_needs_open_site.
+
+Theorem C16_no_panic_compile_refuted :
+  (forall v, g_glob_nil v = false -> replace_globs v [None] = Panic SGlobNil) /\
+  (forall v goos goarch, g_platform_nil v = false -> should_run v goos goarch [None] = Panic SPlatformNil) /\
+  (forall v, g_requires_nil v = false -> requires_loop v [None] = Panic SRequiresNil) /\
+  (forall v o name, g_wc_must v = true -> g_wc_quote v = false -> o_wc_raw o name = false ->
+                    wildcard_compile v o name = Panic SWildcard) /\
+  (forall v, g_traverse_struct v = false -> traverse v true = Panic STraverseStruct) /\
+  (forall v, g_omap_nil v = false -> for_deepcopy v (Some true) = Panic SMatrixNilMap).
+Proof.
+  exact (conj refuted_glob_nil (conj refuted_platform_nil (conj refuted_requires_nil
+        (conj refuted_wildcard (conj refuted_traverse refuted_matrix_nil_map))))).
+Qed.
+Print Assumptions C16_no_panic_compile_refuted.
+
+(* ---- the snippet of a decode error ---- *)
+Theorem C16_snippet_in_bounds :
+  forall line pad n_raw n_hl, exists lo hi,
+    snippet_bounds true line pad n_raw n_hl = Ok (lo, hi) /\
+    (0 <= lo <= hi)%Z /\ (hi <= Z.of_N n_raw)%Z /\ (hi <= Z.of_N n_hl)%Z.
+Proof. exact snippet_clamped_in_bounds. Qed.
+Print Assumptions C16_snippet_in_bounds.
+
+Theorem C16_snippet_refuted : exists line pad n_raw n_hl, snippet_bounds false line pad n_raw n_hl = Panic SSnippet.
+Proof. exact (ex_intro _ 4%Z (ex_intro _ 2%Z (ex_intro _ 1%N (ex_intro _ 5%N refuted_snippet)))). Qed.
+Print Assumptions C16_snippet_refuted.
+
+Theorem C16_snippet_partial :
+  forall line pad n_raw n_hl,
+    (1 <= line)%Z -> (0 <= pad)%Z -> (line - pad <= Z.of_N n_raw)%Z -> (1 <= Z.of_N n_raw)%Z ->
+    (Z.of_N n_raw <= Z.of_N n_hl + 1)%Z ->
+    forall s, snippet_bounds false line pad n_raw n_hl <> Panic s.
+Proof. exact snippet_unclamped_partial. Qed.
+Print Assumptions C16_snippet_partial.
+
+(* ---- include locations ---- *)
+Theorem C16_git_split :
+  (forall path s, git_split true path <> Panic s) /\
+  git_split false "/foo/bar.git" = Panic SGitSplit /\
+  (forall guard path, str_contains "//" path = true -> forall s, git_split guard path <> Panic s).
+Proof.
+  exact (conj (fun path s H => match git_split_open true path s H with conj _ E => Bool.diff_true_false E end)
+        (conj refuted_git_split git_split_partial)).
+Qed.
+Print Assumptions C16_git_split.
+
+(* ---- reading terminates: fuel = number of files + 1 is enough, whatever the include graph ---- *)
+Theorem C16_reader_terminates :
+  forall v o (fs : list (string * ynode)) fuel, List.length fs < fuel -> read v o fs fuel <> ROutOfFuel.
+Proof. exact reader_terminates. Qed.
+Print Assumptions C16_reader_terminates.
+
+Theorem C16_no_panic_read :
+  forall v o fs fuel, all_guards v o -> forall s, read v o fs fuel <> RPanic s.
+Proof. exact no_panic_read. Qed.
+Print Assumptions C16_no_panic_read.
+
+(* ---- every diagnosed error carries a documented exit code ---- *)
+Theorem C16_codes :
+  (forall v o n c, decode_taskfile v o n = Err c -> documented c = true) /\
+  (forall v o fs fuel c, read v o fs fuel = RErr c -> documented c = true) /\
+  (forall v o e c, pr_exact (predict v o e) = Some (OErr c) -> documented c = true).
+Proof.
+  assert (H : forall c, In c model_codes -> documented c = true).
+  { intros c Hc. exact (proj1 (forallb_forall documented model_codes) (proj2 (proj2 (proj2 (proj2 (proj2 (proj2 (proj2 C16_code_table))))))) c Hc). }
+  exact (conj (fun v o n c E => H c (decode_codes v o n c E))
+        (conj (fun v o fs fuel c E => H c (read_codes v o fs fuel c E))
+              (fun v o e c E => H c (predict_exact_codes v o e c E)))).
+Qed.
+Print Assumptions C16_codes.
+
+(* ---- the monitor: whatever agrees with a fully guarded variant, with documented codes, satisfies C16 ---- *)
+Theorem C16_monitor :
+  forall v o e x, all_guards v o -> agrees (predict v o e) x = true ->
+    (forall c, x = OErr c -> documented c = true) -> mon_case x = true.
+Proof. exact (fun v o e x => monitor_of_agreement v o e documented x). Qed.
+Print Assumptions C16_monitor.
+
+Theorem C16_repaired_never_panics :
+  forall o e, pr_must (predict repaired o e) = [] /\ pr_may (predict repaired o e) = [].
+Proof. exact (fun o e => predict_no_panic repaired o e (repaired_all_guards o)). Qed.
+Print Assumptions C16_repaired_never_panics.
+
+(* ---- non-vacuity: concrete Taskfiles, one per site, panic in the unguarded tree and not in the repaired one ---- *)
+Example C16_examples :
+  musts (doc [(k "vars", YMap [(k "A", YMap [])])]) = [SVarEmptyMap] /\
+  musts (doc (one_task [(k "sources", YSeq [YNull]); (k "cmds", YSeq [k "echo hi"])])) = [SGlobNil] /\
+  musts (doc [(k "includes", YMap [(k "g", k "https://example.com/foo/bar.git")])]) = [SGitSplit] /\
+  all_guards repaired ex_oracles.
+Proof. exact (conj doc_var_empty_map (conj doc_sources_null (conj doc_include_git (repaired_all_guards ex_oracles)))). Qed.
